@@ -717,9 +717,15 @@ class TimeoutHandler(PoolThread):
         try:
             raise TimeLimitExceeded(job._timeout)
         except TimeLimitExceeded:
-            job._set(job._job, (False, ExceptionInfo()))
+            einfo = ExceptionInfo()
+            job._set(job._job, (False, einfo))
         else:  # pragma: no cover
             pass
+        if job._value is not einfo:
+            # the job's result was stored by the result handler between the
+            # ready() test above and here: it finished after all, and its
+            # worker may already be running the next job.
+            return
 
         # Remove from _pool
         process, _index = self._process_by_pid(job._worker_pid)
